@@ -117,7 +117,7 @@ def job(spec):
             W = [int(x) for x in np.asarray(blk.data).T.ravel()]
             for (gulp, s, n, skip) in f["plans"]:
                 pev = c01.record_plan(fil, gulp, s, n, skip)
-                plans.append({"hdr": {"files": [], "nbits": 32, "nchans": C, "vals": W, "N": N, "gulp": gulp, "start": s, "nsamps": n,
+                plans.append({"hdr": {"files": [], "nbits": 32, "nchans": C, "vals": W, "novals": False, "N": N, "gulp": gulp, "start": s, "nsamps": n,
                                       "skip": skip}, "ev": pev, "plan": {"gulp": gulp, "start": s, "nsamps": n, "skip": skip}})
         out.append({"hdr": hdr, "ev": ev, "plans": plans, "cfg": dict(f), "precondition": "ok"})
     return out
